@@ -21,6 +21,7 @@ REPLAYS = os.path.join(VERIF, 'replays')
 REGRESS = os.path.join(REPLAYS, 'regress')
 EVIDENCE = os.path.join(VERIF, 'evidence')
 NSHARDS = 16
+SHRINK_CPU_S = 150  # CPU seconds Hypothesis may spend shrinking one failure
 
 
 class Verdict:
@@ -75,6 +76,7 @@ class Stats:
         self.excluded = collections.Counter()
         self.last_failing = None
         self.expensive_failure = False
+        self.first_failure_cpu = None
         self.extra = {}
 
     def record(self, check, case, verdict):
@@ -124,11 +126,17 @@ def _hyp_search(check, tier, seed, n_examples, stats):
         if stats.expensive_failure:
             return  # see below: no shrinking of a failure whose every replay costs seconds of CPU
         c0 = time.process_time()
+        if stats.first_failure_cpu is not None and c0 - stats.first_failure_cpu > SHRINK_CPU_S:
+            return  # shrinking budget (CPU seconds) used up: the smallest failure seen so far is reported
         verdict = check.examine(case)
         stats.record(check, case, verdict)
         if verdict.violations:
             bad = getattr(verdict, 'case_override', None) or case
-            stats.last_failing = (bad, verdict.violations)
+            if stats.last_failing is None or len(json.dumps(bad, default=repr)) <= len(
+                    json.dumps(stats.last_failing[0], default=repr)):
+                stats.last_failing = (bad, verdict.violations)
+            if stats.first_failure_cpu is None:
+                stats.first_failure_cpu = time.process_time()
             if time.process_time() - c0 > 8:
                 # e.g. a livelock that runs into the step / CPU budget: shrinking it would replay that cost hundreds
                 # of times. The un-shrunk case is reported (the driver's flaky fallback confirms it by re-execution).
